@@ -87,7 +87,7 @@ def project_c02(code, rng, n_conv=10, full_synd_below=20, n_synd=10):
         if t == 0 and n >= 1:
             vec[:] = 0
             vec[0] = vec[n] = 1          # a Y
-        form = t % 5
+        form = (t + n) % 5                 # (n: short cycles still reach every form over the codes)
         if t == 0:
             form = 4                         # the Y through the unsorted sparse form
         if form == 0:
